@@ -76,6 +76,13 @@ def single_entry_cases(tier):
         out.append(("mtime-%d/pax" % v, [E(b"f", "file", content=b"m", mtime=v, pax_mtime=b"%d" % v)], "pax"))
         if 0 <= v < 8 ** 11:
             out.append(("mtime-%d/ustar" % v, [E(b"f", "file", content=b"m", mtime=v)], "ustar"))
+    # out-of-range time stamps on the paths that do not create the node: a directory listed after its contents (implicitly created before), the archive's root entry
+    for v in ((-86400, (1 << 32), (1 << 33) + 1234) if quick else (-1, -86400, -(1 << 40), (1 << 32) - 1, 1 << 32, (1 << 32) + 1, (1 << 33) + 1234, 1 << 62)):
+        for how, kw in (("gnu-base256", dict(style="base256")), ("pax", dict(pax_mtime=b"%d" % v))):
+            dialect = "gnu" if how.startswith("gnu") else "pax"
+            out.append(("mtime-%d-dir-after-child/%s" % (v, how), [E(b"d/f", "file", content=b"c"), E(b"d", "dir", mode=0o711, mtime=v, **kw)], dialect))
+            out.append(("mtime-%d-root-entry/%s" % (v, how), [E(b"./", "dir", mode=0o700, mtime=v, **kw), E(b"./f", "file", content=b"r")], dialect))
+            out.append(("mtime-%d-nested-dir-after/%s" % (v, how), [E(b"a/b/c", "slink", target=b"x"), E(b"a/b", "dir", mtime=v, **kw), E(b"a", "dir", mtime=v, **kw)], dialect))
     out.append(("mtime-fractional/pax", [E(b"f", "file", content=b"m", mtime=1234, pax_mtime=b"1234.56789")], "pax"))
     for maj, mi in ([(0, 0), (5, 1), (255, 255), (4095, 1048575)] if quick else [(0, 0), (1, 3), (5, 1), (255, 255), (256, 256), (4095, 255), (4095, 1048575), (8, 65536)]):
         for kind in ("chr", "blk"):
